@@ -35,6 +35,10 @@ def run(res):
     add(9, {"enc_mode": 5}, "motion", 128, 128)
     add(12, {"rate_control_mode": 1, "target_bit_rate": 300000, "logical_processors": 1}, "motion", 176, 144)
     add(6, {"super_block_size": 128, "enc_mode": 3}, "motion", 128, 128)
+    # streams past the order-hint wrap (7 bits: 128 pictures) with several distinct references per frame (presets <= 5):
+    # every reader-side use of order hints (skip mode, motion field, reference signs) must be wrap aware
+    add(140, {"enc_mode": 4, "qp": 40, "enable_tpl_la": 1}, "pan", 64, 64)
+    add(140, {"enc_mode": 5, "qp": 40, "enable_tpl_la": 1}, "pan", 64, 64)
     add(5, {}, "motion", 128, 192)            # taller than wide (recorded finding: decoder crash)
     add(5, {}, "grad", 72, 88)
     if res.tier == "thorough":
